@@ -1,6 +1,6 @@
 //! avh_c20 — multi-schema parsing executions (property C20).
 //!
-//! `run --scn FILE --out FILE --runs R --seed S [--pairs P] [--threads T]`
+//! `run --scn FILE --out FILE --runs R [--runs-big R4] --seed S [--pairs P] [--threads T]`
 //!     every scenario line {form, ins, main} (written forms of spec/MultiParse.tla) is rendered as
 //!     Avro schema JSON texts; for EVERY permutation of the input list `Schema::parse_list`
 //!     (form "list") or `Schema::parse_str_with_list` (form "with") is called R times (each call
@@ -218,6 +218,50 @@ fn collect_term_defs(t: &J, out: &mut HashMap<String, J>) {
     }
 }
 
+/// A conforming value for a schema term; `None` when the type has no value within the fuel
+/// (e.g. a record that contains itself directly).  Leaves come from the shared generator.
+fn value_gen(rng: &mut Rng, t: &J, env: &HashMap<String, J>, fuel: usize) -> Option<J> {
+    match sk(t) {
+        "ref" => {
+            if fuel == 0 {
+                return None;
+            }
+            let target = env.get(t["name"].as_str()?)?.clone();
+            value_gen(rng, &target, env, fuel - 1)
+        }
+        "record" => {
+            let mut fs = vec![];
+            for f in t["fields"].as_array()? {
+                fs.push(json!([f["name"], value_gen(rng, &f["type"], env, fuel)?]));
+            }
+            Some(json!({"t":"record","fields":fs}))
+        }
+        "array" => {
+            let n = rng.below(3);
+            let mut items = vec![];
+            for _ in 0..n {
+                if let Some(v) = value_gen(rng, &t["items"], env, fuel.saturating_sub(1)) {
+                    items.push(v);
+                }
+            }
+            Some(json!({"t":"array","items":items}))
+        }
+        "union" => {
+            let bs = t["branches"].as_array()?;
+            let start = rng.below(bs.len());
+            for k in 0..bs.len() {
+                let i = (start + k) % bs.len();
+                if let Some(v) = value_gen(rng, &bs[i], env, fuel.saturating_sub(1)) {
+                    return Some(json!({"t":"union","i":small(i),"v":v}));
+                }
+            }
+            None
+        }
+        "other" | "none" => None,
+        _ => Some(value_for(rng, t, env, 1)),
+    }
+}
+
 struct PermRuns {
     perm: Vec<usize>,
     first_ok: Option<Parsed>,
@@ -250,9 +294,9 @@ fn datum_exchange(a: &Parsed, pa: &[usize], b: &Parsed, pb: &[usize], rng: &mut 
     for i in 0..upto {
         let (Some(sa), Some(sb)) = (pick_schema(a, pa, i), pick_schema(b, pb, i)) else { continue };
         let term = project(sa);
-        let v = match guarded(AssertUnwindSafe(|| value_for(rng, &term, &env, 3))) {
-            Ok(v) => v,
-            Err(_) => continue,
+        let v = match guarded(AssertUnwindSafe(|| value_gen(rng, &term, &env, 4))) {
+            Ok(Some(v)) => v,
+            _ => continue,
         };
         let val = vterm_to_value(&v);
         let enc = guarded(AssertUnwindSafe(|| -> Result<Vec<u8>, String> {
@@ -298,9 +342,11 @@ fn datum_exchange(a: &Parsed, pa: &[usize], b: &Parsed, pb: &[usize], rng: &mut 
     }
 }
 
-fn execute(scn: &J, id: usize, runs: usize, pairs: usize, seed: u64) -> J {
+fn execute(scn: &J, id: usize, runs: usize, runs_big: usize, pairs: usize, seed: u64) -> J {
     let form = s(scn, "form").to_string();
     let ins: Vec<J> = scn["ins"].as_array().cloned().unwrap_or_default();
+    // 24 and more permutations: fewer runs per permutation
+    let runs = if ins.len() >= 4 { runs_big } else { runs };
     let texts: Vec<String> = ins.iter().map(|d| serde_json::to_string(&render_def(d)).unwrap()).collect();
     let maintext = if form == "with" { serde_json::to_string(&render_type(&scn["main"])).unwrap() } else { String::new() };
     let mut rng = Rng::new(seed ^ ((id as u64 + 1).wrapping_mul(0x9E37_79B9)));
@@ -366,6 +412,7 @@ fn execute(scn: &J, id: usize, runs: usize, pairs: usize, seed: u64) -> J {
 fn cmd_run(a: &Args) -> i32 {
     let lines = read_lines(a.req("scn"));
     let runs = a.usize("runs", 20);
+    let runs_big = a.usize("runs-big", runs);
     let pairs = a.usize("pairs", 2);
     let seed = a.u64("seed", 1);
     let threads = a.usize("threads", 4).max(1);
@@ -385,7 +432,7 @@ fn cmd_run(a: &Args) -> i32 {
                     let mut out = vec![];
                     let mut i = t;
                     while i < scns.len() {
-                        out.push((i, execute(&scns[i], i, runs, pairs, seed).to_string()));
+                        out.push((i, execute(&scns[i], i, runs, runs_big, pairs, seed).to_string()));
                         i += threads;
                     }
                     out
@@ -504,9 +551,11 @@ fn cmd_gen(a: &Args) -> i32 {
         let mut g = Gen { rng: &mut rng, tops: tops.clone() };
         let mut ins: Vec<J> = vec![];
         for (ns, nm) in &tops {
-            let d = g.def(ns, nm, "", 2, true);
+            let mut d = g.def(ns, nm, "", 2, true);
             if g.rng.chance(1, 40) {
+                // only the plain form {"name":Y,"type":{"name":X,..}} (names without namespaces)
                 let outer = if g.rng.chance(1, 2) { nm.clone() } else { "Y".to_string() };
+                d["hdr"] = json!({"n": nm, "how": "none", "ns": ""});
                 ins.push(json!({"k":"wrap","hdr":{"n":outer,"how":"none","ns":""},"inner":d}));
             } else {
                 ins.push(d);
